@@ -637,6 +637,8 @@ def _const_like(x) -> bool:
         return all(_const_like(a) for a in x.args) and all(_const_like(k.value) for k in x.keywords)
     if isinstance(x, (ast.Tuple, ast.List)):
         return all(_const_like(e) for e in x.elts)
+    if isinstance(x, ast.Name) and x.id in ('int', 'float', 'str', 'bool', 'bytes', 'complex', 'list', 'tuple', 'dict', 'set'):
+        return True          # builtin type names, as in `_SCALAR_TYPES = (int, float)`
     return False
 
 
